@@ -84,4 +84,16 @@ theorem C13_unreadable_isolated (pfx : Path) (excluded : Path → Bool) (disk : 
   intro p _
   cases Index.readable p.2 <;> simp
 
+/-- **C13 (third-party classification of workspace files does not depend on the location).** For a
+    file below the workspace root, "lives in site-packages" is judged on the root-relative part of
+    its path: wherever the workspace is moved (also under a directory called `site-packages`), the
+    verdict is the same — a virtualenv inside the project still counts.  (Before the repair the test
+    was a substring search over the absolute path.) -/
+theorem C13_site_packages_relocation (pfx pfx' : Path) (st : Index) (ws f : Path)
+    (hws : st.workspaceRoot = some ws) (hf : pathStartsWith f ws = true) :
+    Index.inSitePackages pfx st f = Index.inSitePackages pfx' st f ∧
+    Index.inSitePackages pfx st f = (f.drop ws.length).any (· == "site-packages") := by
+  unfold Index.inSitePackages
+  simp [hws, hf]
+
 end PLS
